@@ -131,12 +131,12 @@ def run(ctx):
     ph = ctx.extra.setdefault("phase_wall_s", {})
     t1 = time.time()
     if ctx.thorough:
-        plan = [("d1", sh, 4) for sh in range(4)] + [("d2", sh, 12) for sh in range(12)]
+        plan = [("d1", sh, 4) for sh in range(4)] + [("d2", sh, 12) for sh in range(12)] + [("d3opt", 0, 1)]
         ctx.exhaustive = True
         n_run = 400
     else:
         nsh = 24
-        plan = [("d1", sh, 6) for sh in range(6)] + [("d2", ctx.seed % nsh, nsh)]
+        plan = [("d1", sh, 6) for sh in range(6)] + [("d2", ctx.seed % nsh, nsh), ("d3opt", 0, 1)]
         ctx.exhaustive = False
         ctx.extra["exhaustive_part"] = ("all atom and depth-1 types x the whole value menu; depth-2 types: 1 of 24 "
                                         "slices chosen by seed")
